@@ -59,6 +59,11 @@ LEAVES = [("dq", "$V"), ("dq", "${T}"), ("dq", "${L:-none}"), ("sq", "a"), ("sq"
           ("call", "or", [("dq", "$T"), ("call", "eq", [("dq", "$L"), ("sq", "MIT")])])]
 
 
+# leaves whose values coincide for some packages: "$V" ~ 'a' / 'b' / "b", '' ~ "${T}", ...
+TWINS = {0: [3, 4, 5, 0, 8], 3: [0, 8], 4: [0, 5], 5: [0, 4], 1: [6, 13, 14], 6: [1, 19], 13: [1], 14: [1], 2: [2], 11: [11],
+         7: [9, 14], 9: [7, 14], 22: [3, 4], 19: [6]}
+
+
 class Timeout(BaseException):
     pass
 
@@ -224,7 +229,7 @@ def gen_step(r, G, depth, test=None, axis="?"):
     if test is None and r.random() < 0.07:
         return {"dot": True}
     if axis == "?":
-        axis = None if r.random() < 0.5 else r.choice(AXES)
+        axis = None if r.random() < 0.45 else r.choice(AXES + ["direct-child", "direct-descendant", "direct-child"])
     st = {"axis": axis, "test": test if test is not None else gen_test(r, G), "pred": None}
     if depth > 0 and r.random() < 0.3:
         st["pred"] = gen_pred(r, G, depth - 1)
@@ -253,6 +258,25 @@ def gen_path(r, G, depth, top):
             seps.append("/")
             steps.append(gen_step(r, G, 0))
         return {"lead": lead, "steps": steps, "seps": seps}
+    if k < 0.26 and (top or lead):
+        # prune then search: a wildcard step, an exact step that drops most of its results again, then a search below
+        ch0 = [(nm, c, d) for (nm, c, d) in eff_children(G, 0) if eff_children(G, c)]
+        if ch0:
+            (nm1, c1, d1) = r.choice(ch0)
+            (nm2, c2, d2) = r.choice(eff_children(G, c1))
+            steps.append(gen_step(r, G, 0, r.choice(["*", nm1[:1] + "*", "*"]), None))
+            seps.append("/")
+            steps.append(gen_step(r, G, 0, nm2, None))
+            node = c2
+            hops = 0
+            while eff_children(G, node) and (hops == 0 or r.random() < 0.6):
+                (nm3, node, _) = r.choice(eff_children(G, node))
+                hops += 1
+            if hops:
+                seps.append(r.choice(["//", "//", "/"]))
+                steps.append(gen_step(r, G, depth, nm3 if r.random() < 0.8 else "*",
+                                      None if seps[-1] == "//" else r.choice(["descendant", "descendant-or-self"])))
+            return {"lead": lead, "steps": steps, "seps": seps}
     if k < 0.65:
         # guided along an existing path, from the root for top level / absolute paths, else from anywhere
         node = 0 if (top or lead) else r.randrange(G["n"])
@@ -307,7 +331,10 @@ def gen_pred(r, G, depth):
     if k < 0.72:
         return ("path", gen_path(r, G, depth, False))
     if k < 0.9:
-        return ("cmp", r.choice(CMP_OPS), r.randrange(len(LEAVES)), r.randrange(len(LEAVES)))
+        a = r.randrange(len(LEAVES))
+        # one third of the comparisons have sides that are equal for some packages (<= vs <, == vs !=)
+        b = r.choice(TWINS.get(a, [a])) if r.random() < 0.35 else r.randrange(len(LEAVES))
+        return ("cmp", r.choice(CMP_OPS), a, b)
     return ("truth", r.randrange(len(LEAVES)))
 
 
@@ -858,7 +885,10 @@ def check_case(G, svals, sem, impl, q, extra_mode, want_all, full=True):
 def check_tables(G, impl):
     """(f): the persisted parents are the inverse of the persisted children; children as documented"""
     viol = []
-    root, tab = impl.tables()
+    try:
+        root, tab = impl.tables()
+    except Exception as e:  # noqa
+        return None, [("the persisted graph cannot be read: %s: %s" % (type(e).__name__, e), "graph-db-unreadable")]
     if root != 0 or sorted(tab) != list(range(G["n"])):
         viol.append(("persisted graph has keys %s root %s for %d packages" % (sorted(tab), root, G["n"]), "graph-db-nodes"))
         return tab, viol
@@ -894,6 +924,7 @@ def run_graph(job):
                 out["hang"] = True
                 break
             if qi == 0:
+                impl.query("nullset", {}, "", "tree", False)      # the root itself: makes sure the graph is persisted
                 tab, tv = check_tables(G, impl)
                 out["tables"] = tab
                 viol = viol + tv
